@@ -40,6 +40,21 @@ var noPreempt int
 // region.
 func NoPreempt() bool { return noPreempt > 0 }
 
+// LockHook is called right before repo code acquires a Mutex / RWMutex: a
+// step like any other, but one the scheduler may prefer as a preemption point
+// (check-then-act bugs on lock-protected state need a switch exactly there).
+var LockHook func(site int)
+
+func StepLock(site int) {
+	if h := LockHook; h != nil {
+		h(site)
+		return
+	}
+	if h := StepHook; h != nil {
+		h(site)
+	}
+}
+
 func Step(site int) {
 	if h := StepHook; h != nil {
 		h(site)
